@@ -3,8 +3,9 @@
 
    Reading guide.  A history is a list of events: [EStep i] (a step of the engine: step number, relative step,
    repeated-step flag, the values of the variables, each a list of components), [ESave] (the state is written),
-   [ERestart None] (the state is written and read by a fresh instance with the same configuration) or
-   [ERestart (Some g)] (the same with rebinGrids on and the new grid boundaries g).
+   [ERestart None] (the state is written and read by a fresh instance with the same configuration),
+   [ERestart (Some g)] (the same with rebinGrids on and the new grid boundaries g) or [EReload] (the state is written
+   and read back by the same instance, which already holds hills).
    [final_state Rops c hist] is the state of the model of colvarbias_meta after the history;
    [out_energy c hist i] / [out_force c hist i k] are the energy and the force on variable k (a list of components)
    that update() returns at the next step i.  The specification keeps only the list of hills deposited so far,
@@ -22,9 +23,10 @@
    Premises: [cfg_ok c] (positive sigmas and widths, sigma = width*hillWidth/2 when hillWidth is given; with grids:
    scalar variables, upper = lower + nx*width, no expandBoundaries on a periodic variable) and [history_ok c hist]:
    with grids, every step has one value per variable, not beyond a boundary declared hard and not beyond a grid that
-   covers part of the range of a periodic variable ([adm]), and a rebinning restart happens with keepHills, onto
-   well-formed boundaries, with every hill at least min_buffer bins inside the expandable edges of the new grid
-   ([rebin_ok]; vacuous without expandBoundaries).  Nothing is assumed without grids.  [plain_history_ok]: a list of
+   covers part of the range of a periodic variable ([adm]), and a rebinning restart happens onto well-formed
+   boundaries, either with keepHills (grids recomputed from the hills) and every hill at least min_buffer bins inside
+   the expandable edges of the new grid (vacuous without expandBoundaries), or without keepHills (old grids mapped
+   onto the new ones) onto the current grids extended by whole bins where expandBoundaries allows ([rebin_ok]).  Nothing is assumed without grids.  [plain_history_ok]: a list of
    admissible steps, saves and plain restarts is such a history.
    All statements hold for the code with the six `fix:` commits of branch fix-C05 (known_findings.txt); the
    witnesses of the defects they repair are replayed by props/C05/check.py. *)
@@ -66,7 +68,7 @@ Theorem C05_deposited : forall (c : cfgR) (hist : list eventR) (i : inR),
   s_all (spec_run c (hist ++ [EStep i])) =
   s_all (spec_run c hist) ++
   (if eligible c i
-   then [mkHill (i_it i) (spec_height c (spec_expand c (spec_run c hist) (i_x i)) (i_x i)) (i_x i)] else []).
+   then [mkHill (i_it i) (spec_height c (spec_expand c (spec_run c hist) (i_x i)) i) (i_x i)] else []).
 Proof. exact deposited_snoc. Qed.
 Print Assumptions C05_deposited.
 
@@ -80,7 +82,7 @@ Theorem C05_deposited_restart : forall (c : cfgR) (hist : list eventR) (r : opti
 Proof. exact deposited_restart. Qed.
 Print Assumptions C05_deposited_restart.
 
-Theorem C05_deposited_plain : forall (c : cfgR) (hist : list eventR), c_wt c = false ->
+Theorem C05_deposited_plain : forall (c : cfgR) (hist : list eventR), c_wt c = false -> c_eb c = false ->
   s_all (spec_run c hist) =
   map (fun i => mkHill (i_it i) (c_weight c) (i_x i)) (filter (eligible c) (steps_of hist)).
 Proof. exact deposited_plain. Qed.
@@ -91,7 +93,7 @@ Theorem C05_tabulated : forall (c : cfgR) (hist : list eventR) (i : inR), c_use_
   s_pend (spec_run c (hist ++ [EStep i])) = (if (i_it i mod c_gfreq c =? 0)%Z then [] else
      s_pend (spec_run c hist) ++
      (if eligible c i
-      then [mkHill (i_it i) (spec_height c (spec_expand c (spec_run c hist) (i_x i)) (i_x i)) (i_x i)] else [])).
+      then [mkHill (i_it i) (spec_height c (spec_expand c (spec_run c hist) (i_x i)) i) (i_x i)] else [])).
 Proof. exact tabulated_snoc. Qed.
 Print Assumptions C05_tabulated.
 
@@ -143,6 +145,13 @@ Theorem C05_keep_hills_irrelevant : forall (c : cfgR) (b : bool) (hist : list ev
 Proof. exact keep_hills_irrelevant. Qed.
 Print Assumptions C05_keep_hills_irrelevant.
 
+(* writeHillsTrajectory: the records buffered since the instance was created are the hills deposited since then, one
+   per hill, in order, with the step, height and centre of the deposition (spec_traj) *)
+Theorem C05_hills_trajectory : forall (c : cfgR) (hist : list eventR),
+  cfg_ok c -> history_ok c hist -> st_traj (final_state Rops c hist) = spec_traj c hist.
+Proof. exact trajectory_holds. Qed.
+Print Assumptions C05_hills_trajectory.
+
 (* a list of admissible steps, saves and plain restarts is an admissible history *)
 Theorem C05_plain_history_ok : forall (c : cfgR) (hist : list eventR),
   Forall (plain_event c) hist -> history_ok c hist.
@@ -156,7 +165,7 @@ Example C05_premises_satisfiable :
   cfg_ok w_cfg /\ history_ok w_cfg ([EStep w_i1] ++ [EStep w_i2]) /\
   in_grid w_cfg (c_geom0 w_cfg) (i_x w_i1) = true /\ in_grid w_cfg (c_geom0 w_cfg) (i_x w_i2) = false /\
   eligible w_cfg w_i1 = true /\
-  spec_run w_cfg ([EStep w_i1] ++ [EStep w_i2]) = mkS [mkHill 2%Z 1%R [[(3/2)%R]]] [] (c_geom0 w_cfg).
+  spec_run w_cfg ([EStep w_i1] ++ [EStep w_i2]) = mkS [mkHill 2%Z (1 * (1 * 1))%R [[(3/2)%R]]] [] (c_geom0 w_cfg).
 Proof. exact w_example. Qed.
 
 Example C05_premises_satisfiable_expand_periodic_wt :
@@ -166,11 +175,21 @@ Proof. exact x_example. Qed.
 
 Example C05_premises_satisfiable_vectors :
   cfg_ok v_cfg /\ history_ok v_cfg [EStep v_i1; ERestart None; EStep v_i2] /\ c_use_grids v_cfg = false /\
-  map (@v_kind R) (c_vars v_cfg) = [KVec3; KUnit3] /\ eligible v_cfg v_i1 = true.
+  map (@v_kind R) (c_vars v_cfg) = [KVec3; KUnit3; KQuat] /\ eligible v_cfg v_i1 = true.
 Proof. exact v_example. Qed.
 
 Example C05_premises_satisfiable_rebin :
   cfg_ok r_cfg /\ history_ok r_cfg [EStep w_i1; ERestart (Some r_g); EStep w_i2] /\
-  spec_run r_cfg [EStep w_i1; ERestart (Some r_g); EStep w_i2] = mkS [mkHill 2%Z 1%R [[(3/2)%R]]] [] r_g /\
+  spec_run r_cfg [EStep w_i1; ERestart (Some r_g); EStep w_i2] = mkS [mkHill 2%Z (1 * (1 * 1))%R [[(3/2)%R]]] [] r_g /\
   in_grid r_cfg r_g (i_x w_i2) = true.
 Proof. exact r_example. Qed.
+
+Example C05_premises_satisfiable_ebmeta :
+  cfg_ok e_cfg /\ history_ok e_cfg [EStep w_i1; EStep w_i2] /\ c_eb e_cfg = true /\ c_wt e_cfg = true /\
+  eligible e_cfg w_i1 = true /\ eb_factor e_cfg w_i1 = (3 / 4)%R.
+Proof. exact e_example. Qed.
+
+Example C05_premises_satisfiable_reload_rebin_from_grids :
+  cfg_ok n_cfg /\ history_ok n_cfg [EStep w_i1; EReload; ERestart (Some n_g); EStep w_i1] /\
+  c_keep n_cfg = false /\ existsb (@v_expand R) (c_vars n_cfg) = true.
+Proof. exact n_example. Qed.
